@@ -57,6 +57,7 @@ def run(tier, seed):
     for scn in scns:
         twin_fin = None
         if not scn["U"]:
+            H.derive_presentation(scn)      # the supervised twin is handed the very same arrays
             sup = copy.deepcopy(scn)
             sup["kind"] = "sup"
             sup["Q"] = []
